@@ -394,6 +394,7 @@ class CongestionMonitor(netsim.Monitor):
         self.pto_fired = {"c": 0, "s": 0}
         self.pto_seen = {"c": 0, "s": 0}
         self.before = {}
+        self.early_probe = {}
 
     def before_api(self, w, ep, name):
         conn = ep.conn
@@ -405,6 +406,13 @@ class CongestionMonitor(netsim.Monitor):
         self.win = (loss.congestion_window, loss.bytes_in_flight)
         b = self.before.pop(ep.name, None)
         if b is not None and loss._pto_count > b:
+            self.pto_fired[ep.name] += 1
+        elif (not getattr(ep.conn, "_handshake_complete", True) and getattr(ep.conn, "_probe_pending", False)
+              and not self.early_probe.get(ep.name)):
+            # RFC 9002 6.2.3: on duplicate CRYPTO data from the peer an endpoint may, once per connection, send
+            # its unacknowledged CRYPTO data earlier than the PTO - a probe, not blocked by the congestion
+            # controller (7.5); aioquic marks it with its probe flag
+            self.early_probe[ep.name] = True
             self.pto_fired[ep.name] += 1
 
     def after_pump(self, w, ep, cause, sent, new_events, timer):
